@@ -105,6 +105,27 @@ def build(rng, case):
             lines.append('  <bond atomRefs2="%s%s%s" order="%s"/>' % (ids[i], sep, ids[j], order))
         lines.append(" </bondArray>")
     lines.append("</molecule>")
+    if n >= 2 and rng.integers(4) == 0:
+        # the atoms spread over two child molecules, each with its own atomArray; the bonds (which may join the two) in bondArrays
+        # of the children and of the parent. Ids are unique in the document; document order is the atom order.
+        head = [l for l in lines if l.startswith("<?xml")]
+        atom_lines = [l for l in lines if l.lstrip().startswith("<atom ")]
+        bond_lines = [l for l in lines if l.lstrip().startswith("<bond ")]
+        cut = int(rng.integers(1, n))
+        inner = {0: [], 1: [], 2: []}
+        for (i, j, order), bl in zip(bonds, bond_lines):
+            inner[0 if max(i, j) < cut else (1 if min(i, j) >= cut else 2)].append(bl)
+        lines = head + ['<molecule id="parent">']
+        for part, al in ((0, atom_lines[:cut]), (1, atom_lines[cut:])):
+            lines += [' <molecule id="part%d">' % part, "  <atomArray>"] + ["  " + l for l in al] + ["  </atomArray>"]
+            if inner[part]:
+                lines += ["  <bondArray>"] + ["  " + l for l in inner[part]] + ["  </bondArray>"]
+            lines += [" </molecule>"]
+        if inner[2]:
+            lines += [" <bondArray>"] + inner[2] + [" </bondArray>"]
+        lines.append("</molecule>")
+        case["_parts"] = True
+        # the loader lists bonds in document order, the comparison is order-free
     # the molecule inside the wrappers CML documents come in (no namespace declaration, as in the repository's own files)
     wrap = int(rng.integers(5))
     case["_wrap"] = ["molecule-is-root", "cml", "list", "cml/list", "molecule-in-molecule"][wrap]
@@ -217,6 +238,8 @@ def run_case(case, ctx):
     st.count("documents")
     st.seen("id_scheme", case["ids"])
     st.seen("document_wrapper", case.get("_wrap"))
+    if case.get("_parts") and bonds:
+        st.count("documents_with_two_atom_arrays_and_bonds")
     if bonds:
         st.seen("document_wrapper_with_bonds", case.get("_wrap"))
     st.seen("bond_class", case["bonds"] + ("/empty" if not bonds else ""))
@@ -235,6 +258,8 @@ def requirements(stats, tier):
         need.append("too few loads observed: %d" % stats.get("loads_checked"))
     if stats.nseen("document_wrapper_with_bonds") < 5:
         need.append("document wrappers observed with bonds: %s" % sorted(stats.sets.get("document_wrapper_with_bonds", [])))
+    if stats.get("documents_with_two_atom_arrays_and_bonds") < 10:
+        need.append("documents whose atoms are spread over two atomArrays: %d" % stats.get("documents_with_two_atom_arrays_and_bonds"))
     if stats.nseen("id_scheme") < 5:
         need.append("not all id schemes observed")
     if stats.get("documents_without_bonds") < 20:
